@@ -3,11 +3,12 @@
    - the hypothesis no_extra_props follows from the acceptance of the reverse comparison;
    - every single difference of a noticed class (Cmp/Diff.v) breaks the covered relation, so the
      class-by-class rejection theorems are corollaries of soundness;
-   - completeness for "pins as a set" is refuted (the comparer zips the pins of a wire);
+   - completeness for "pins as a set" holds (the comparer matches the pins of two wires by key);
+     the witness of the former refutation (pins of one wire listed in the other order) is accepted;
    - the lower index of a port is not compared. *)
 From Coq Require Import String List Arith NArith ZArith Bool Lia Permutation.
 From SV Require Import Base.Base Cmp.Comparer Cmp.Diff Cmp.Equiv
-  Proofs.CmpBase Proofs.CmpAccept Proofs.CmpReject Proofs.CmpSound Proofs.CmpComplete Proofs.CmpWitness.
+  Proofs.CmpBase Proofs.CmpPinSet Proofs.CmpAccept Proofs.CmpReject Proofs.CmpSound Proofs.CmpComplete Proofs.CmpWitness.
 Import ListNotations.
 
 (* ---------- matched siblings are the siblings of the same name ---------- *)
@@ -57,9 +58,10 @@ Qed.
 Lemma props_eq_sym p q : props_eq p q -> props_eq q p.
 Proof. intros [H1 H2]. split; assumption. Qed.
 
-Theorem nv_equiv_ord_sym a b : nv_equiv_ord a b -> nv_equiv_ord b a.
+Theorem nv_rel_sym (WR : wire -> wire -> Prop) a b : (forall w w', WR w w' -> WR w' w) ->
+  nv_rel props_eq WR a b -> nv_rel props_eq WR b a.
 Proof.
-  intros [H1 [H2 [H3 H4]]]. split; [auto|]. split; [auto|]. split.
+  intros HW [H1 [H2 [H3 H4]]]. split; [auto|]. split; [auto|]. split.
   - destruct (n_top a), (n_top b); cbn in *; try assumption.
     destruct H3 as [G1 [G2 [G3 G4]]]. split; [auto|]. split; [auto|]. split; [auto|].
     apply props_eq_sym. assumption.
@@ -70,10 +72,17 @@ Proof.
     + eapply sib_equiv_sym; [|exact D3]. cbn. intros p q _ _ [P1 [P2 [P3 [P4 P5]]]].
       repeat split; auto.
     + eapply sib_equiv_sym; [|exact D4]. cbn. intros c c' _ _ [C1 [C2 C3]].
-      split; [auto|]. split; [auto|]. apply Forall2_eq in C3. rewrite C3. apply Forall2_eq_refl.
+      split; [auto|]. split; [auto|]. apply Forall2_flip in C3.
+      eapply Forall2_impl_in; [|exact C3]. cbn. intros w w' _ _. apply HW.
     + eapply sib_equiv_sym; [|exact D5]. cbn. intros i j _ _ [I1 [I2 [I3 I4]]].
       split; [auto|]. split; [auto|]. split; [auto|]. apply props_eq_sym. assumption.
 Qed.
+
+Theorem nv_equiv_ord_sym a b : nv_equiv_ord a b -> nv_equiv_ord b a.
+Proof. apply nv_rel_sym. intros w w' H. symmetry. assumption. Qed.
+
+Theorem nv_equiv_sym a b : nv_equiv a b -> nv_equiv b a.
+Proof. apply nv_rel_sym. intros w w'. apply Permutation_sym. Qed.
 
 (* ---------- the reverse comparison closes the hole ---------- *)
 Lemma wf_named_libs a : wf_named a ->
@@ -90,15 +99,15 @@ Proof.
   split; assumption.
 Qed.
 
-Theorem covered_no_extra a b : wf_named a -> nv_covered b a -> no_extra_props a b.
+Theorem covered_no_extra_gen WR a b : wf_named a -> nv_rel props_sub WR b a -> no_extra_props a b.
 Proof.
   intros Hwf [_ [_ [H3 H4]]]. destruct (wf_named_libs a Hwf) as [Hnl Hwl]. split.
   - intros ta tb Ea Eb. rewrite Ea, Eb in H3. cbn in H3. apply H3.
   - intros la lb da db ia ib Hla Hlb Hl Hda Hdb Hd Hia Hib Hi.
-    assert (L : lib_rel props_sub eq lb la).
+    assert (L : lib_rel props_sub WR lb la).
     { eapply (sib_equiv_pair _ l_name); [exact H4|exact Hnl|intros u v [G _]; exact G| | |]; auto. }
     destruct L as [_ [_ L3]]. destruct (wf_lib_defs la (Hwl la Hla)) as [Hnd Hwd].
-    assert (D : defn_rel props_sub eq db da).
+    assert (D : defn_rel props_sub WR db da).
     { eapply (sib_equiv_pair _ d_name); [exact L3|exact Hnd|intros u v [G _]; exact G| | |]; auto. }
     destruct D as [_ [_ [_ [_ D5]]]]. pose proof (wf_def_unpack da (Hwd da Hda)) as Hf.
     assert (I : inst_rel props_sub ib ia).
@@ -106,15 +115,18 @@ Proof.
     apply I.
 Qed.
 
+Theorem covered_no_extra a b : wf_named a -> nv_covered_set b a -> no_extra_props a b.
+Proof. apply covered_no_extra_gen. Qed.
+
 (* comparing both ways decides structural equivalence exactly *)
 Theorem compare_both_ways a b : wf_named a -> wf_named b -> no_asg a -> no_asg b ->
-  (compare a b = true /\ compare b a = true <-> nv_equiv_ord a b).
+  (compare a b = true /\ compare b a = true <-> nv_equiv a b).
 Proof.
   intros Ha Hb Na Nb. split.
   - intros [H1 H2]. apply compare_sound; try assumption.
     apply covered_no_extra; [assumption|]. apply compare_sound_covered; assumption.
-  - intro H. split; [apply compare_complete; assumption|].
-    apply compare_complete; [assumption|assumption|]. apply nv_equiv_ord_sym. assumption.
+  - intro H. split; [apply compare_complete_set; assumption|].
+    apply compare_complete_set; [assumption|assumption|assumption|]. apply nv_equiv_sym. assumption.
 Qed.
 
 (* ---------- every noticed single difference breaks the covered relation ---------- *)
@@ -148,20 +160,26 @@ Proof.
   - destruct (p_array p); discriminate.
 Qed.
 
-Lemma pin_diff_neq m p p' : pin_diff m p p' -> p <> p'.
-Proof. destruct 1; intro Heq; inversion Heq; congruence. Qed.
-
 Lemma splice_neq {A} (R : A -> A -> Prop) l l' : (forall x y, R x y -> x <> y) -> splice R l l' -> l <> l'.
 Proof.
   intros HR [l1 x y l2 Hxy] H. apply app_inv_head in H. inversion H. apply (HR x y Hxy). assumption.
 Qed.
 
-Lemma cable_diff_not_rel io m c c' : cable_diff io m c c' -> ~ cable_rel eq c c'.
+Lemma Forall2_splice_mid {A} (R : A -> A -> Prop) l1 x y l2 :
+  Forall2 R (l1 ++ x :: l2) (l1 ++ y :: l2) -> R x y.
+Proof.
+  induction l1 as [|z l1 IH]; cbn; intro H; inversion H; subst; [assumption|apply IH; assumption].
+Qed.
+
+(* one pin of one wire replaced by a different pin: the wire no longer carries the same pins,
+   in whatever order they are listed *)
+Lemma cable_diff_not_rel io m c c' : cable_diff io m c c' -> ~ cable_rel wire_perm c c'.
 Proof.
   destruct 1 as [c ws' Hl|m c ws' Hs]; intros [_ [_ H3]]; cbn in H3.
   - apply Forall2_len in H3. congruence.
-  - apply Forall2_eq in H3. revert H3. apply (splice_neq _ _ _ (fun w w' Hw => splice_neq _ w w'
-      (fun p p' Hp => pin_diff_neq m p p' (proj1 Hp)) Hw) Hs).
+  - destruct Hs as [W1 w w' W2 Hw]. apply Forall2_splice_mid in H3.
+    destruct Hw as [P1 p p' P2 [Hd _]]. unfold wire_perm in H3.
+    apply (perm_splice_same pinref_eq_dec) in H3. exact (pin_diff_neq m p p' Hd H3).
 Qed.
 
 Lemma inst_diff_not_rel m i i' : props_ok i -> noticed m = true -> inst_diff m i i' ->
@@ -195,7 +213,7 @@ Proof.
 Qed.
 
 Lemma def_diff_not_rel m d d' : wf_def d = true -> noticed m = true -> def_diff m d d' ->
-  ~ defn_rel props_sub eq d d'.
+  ~ defn_rel props_sub wire_perm d d'.
 Proof.
   intros Hwf Hm Hd [_ [_ [H3 [H4 H5]]]]. apply wf_def_unpack in Hwf.
   destruct Hd as [m d ps' Hs|d ps' Hs|d ps' Hs|m d cs' Hs|d cs' Hs|d cs' Hs|m d xs' Hs|d xs' Hs _|d xs' Hs _];
@@ -206,7 +224,7 @@ Proof.
     + intros x y _. apply port_diff_not_rel.
   - apply (sib_dropped _ _ _ Hs H3).
   - apply (sib_added _ _ _ Hs H3).
-  - revert H4. apply (splice_not_sib (cable_rel eq) (cable_diff (d_insts d) m) c_name); [apply (wd_nc _ Hwf)| | | |exact Hs].
+  - revert H4. apply (splice_not_sib (cable_rel wire_perm) (cable_diff (d_insts d) m) c_name); [apply (wd_nc _ Hwf)| | | |exact Hs].
     + intros x y. apply cable_diff_name.
     + intros u v [G _]. exact G.
     + intros x y _. apply cable_diff_not_rel.
@@ -222,11 +240,11 @@ Proof.
 Qed.
 
 Lemma lib_diff_not_rel m l l' : wf_lib l = true -> noticed m = true -> lib_diff m l l' ->
-  ~ lib_rel props_sub eq l l'.
+  ~ lib_rel props_sub wire_perm l l'.
 Proof.
   intros Hwf Hm Hd [_ [_ H3]]. destruct (wf_lib_defs l Hwf) as [Hn Hw].
   destruct Hd as [m l ds' Hs|l ds' Hs|l ds' Hs]; cbn in *.
-  - revert H3. apply (splice_not_sib (defn_rel props_sub eq) (def_diff m) d_name); [exact Hn| | | |exact Hs].
+  - revert H3. apply (splice_not_sib (defn_rel props_sub wire_perm) (def_diff m) d_name); [exact Hn| | | |exact Hs].
     + intros x y Hxy. apply (def_diff_name m x y Hxy).
     + intros u v [G _]. exact G.
     + intros x y Hx. apply def_diff_not_rel; [apply Hw; assumption|assumption].
@@ -234,11 +252,11 @@ Proof.
   - apply (sib_added _ _ _ Hs H3).
 Qed.
 
-Theorem nv_diff_not_covered m a b : wf_named a -> noticed m = true -> nv_diff m a b -> ~ nv_covered a b.
+Theorem nv_diff_not_covered m a b : wf_named a -> noticed m = true -> nv_diff m a b -> ~ nv_covered_set a b.
 Proof.
   intros Hwf Hm Hd [_ [_ [H3 H4]]]. destruct (wf_named_libs a Hwf) as [Hn Hw].
   destruct Hd as [m a ls' Hs|a ls' Hs|a ls' Hs|m a t t' Ht Hi]; cbn in *.
-  - revert H4. apply (splice_not_sib (lib_rel props_sub eq) (lib_diff m) l_name); [exact Hn| | | |exact Hs].
+  - revert H4. apply (splice_not_sib (lib_rel props_sub wire_perm) (lib_diff m) l_name); [exact Hn| | | |exact Hs].
     + intros x y Hxy. apply (lib_diff_name m x y Hxy).
     + intros u v [G _]. exact G.
     + intros x y Hx. apply lib_diff_not_rel; [apply Hw; assumption|assumption].
@@ -263,17 +281,70 @@ Theorem single_diff_rejected_by_soundness a b : wf_named a -> no_asg a -> single
 Proof. intros Hwf Hna [m [Hm Hd]]. eapply rejects_by_soundness; eassumption. Qed.
 
 (* contrapositive of soundness: any difference at all, two or more at once included *)
-Theorem not_covered_rejected a b : wf_named a -> no_asg a -> ~ nv_covered a b -> compare a b = false.
+Theorem not_covered_rejected a b : wf_named a -> no_asg a -> ~ nv_covered_set a b -> compare a b = false.
 Proof.
   intros Hwf Hna H. destruct (compare a b) eqn:E; [|reflexivity].
   exfalso. apply H. apply compare_sound_covered; assumption.
 Qed.
 
 Theorem not_equiv_rejected a b : wf_named a -> no_asg a -> no_extra_props a b ->
-  ~ nv_equiv_ord a b -> compare a b = false.
+  ~ nv_equiv a b -> compare a b = false.
 Proof.
   intros Hwf Hna Hex H. destruct (compare a b) eqn:E; [|reflexivity].
   exfalso. apply H. apply compare_sound; assumption.
+Qed.
+
+(* ---------- nothing that the positional comparison accepted is lost ---------- *)
+Lemma inst_equiv_accept_key o c : inst_equiv o c = Accept ->
+  exists k, inst_key (op_inst o) = inr k /\ inst_key (op_inst c) = inr k.
+Proof.
+  unfold inst_equiv. intro H. apply seq_accept in H as [H _]. unfold inst_key.
+  destruct (op_inst o) as [on|]; [|discriminate H].
+  destruct (starts_with asg_prefix on) eqn:Eo.
+  - destruct (op_inst c) as [cn|]; [|discriminate H].
+    destruct (starts_with asg_prefix cn) eqn:Ec.
+    + destruct (asg_width on) as [x|]; [|discriminate H]. destruct (asg_width cn) as [y|]; [|discriminate H].
+      apply check_accept in H. apply str_eqb_spec in H. subst y. eauto.
+    + apply check_accept in H. apply str_eqb_spec in H. subst cn. congruence.
+  - destruct (op_inst c) as [cn|]; [|discriminate H].
+    apply check_accept in H. apply str_eqb_spec in H. subst cn. rewrite Eo. eauto.
+Qed.
+
+Lemma cmp_pin_accept_key xo xc io ic o c : cmp_pin xo xc io ic o c = Accept ->
+  exists k, pin_key xo io o = inr k /\ pin_key xc ic c = inr k.
+Proof.
+  unfold cmp_pin, pin_key. intro H.
+  destruct (resolve xo io o) as [qo bo|po| |]; destruct (resolve xc ic c) as [qc bc|pc| |]; try discriminate H.
+  - apply inner_equiv_sound in H as [-> ->]. eauto.
+  - apply seq_accept in H as [H1 H2]. apply inner_equiv_sound in H2 as [Hb Hq].
+    destruct (inst_equiv_accept_key _ _ H1) as [k [-> ->]]. rewrite Hb, Hq. eauto.
+Qed.
+
+Theorem zip_accept_still_accepted xo xc io ic : forall wo wc, length wo = length wc ->
+  zip_pins xo xc io ic wo wc = Accept -> cmp_wire xo xc io ic wo wc = Accept.
+Proof.
+  intros wo wc Hl Hz. rewrite cmp_wire_zip; [assumption| |].
+  - revert wc Hl Hz. induction wo as [|o wo IH]; intros [|c wc] Hl Hz; try discriminate Hl; [intros ? []|].
+    cbn [zip_pins] in Hz. apply seq_accept in Hz as [H1 H2]. intros p [<-|Hp].
+    + destruct (cmp_pin_accept_key _ _ _ _ _ _ H1) as [k [_ Hk]]. eauto.
+    + apply (IH wc); [cbn in Hl; lia|assumption|assumption].
+  - revert wc Hl Hz. induction wo as [|o wo IH]; intros [|c wc] Hl Hz; try discriminate Hl; constructor.
+    + cbn [zip_pins] in Hz. apply seq_accept in Hz as [H1 _].
+      destruct (cmp_pin_accept_key _ _ _ _ _ _ H1) as [k [-> ->]]. reflexivity.
+    + cbn [zip_pins] in Hz. apply seq_accept in Hz as [_ H2]. apply IH; [cbn in Hl; lia|assumption].
+Qed.
+
+Lemma zip_accept_ex :
+  exists xo xc io ic wo wc, wo <> [] /\ length wo = length wc /\ zip_pins xo xc io ic wo wc = Accept.
+Proof.
+  exists (Some (s2l "top"), Some (s2l "work")), (Some (s2l "top"), Some (s2l "work")).
+  exists [mkinst (Some (s2l "u0")) None (Some (Some (s2l "LEAF"), Some (s2l "work"))) None;
+          mkinst (Some (s2l "u1")) None (Some (Some (s2l "LEAF"), Some (s2l "work"))) None].
+  exists [mkinst (Some (s2l "u1")) None (Some (Some (s2l "LEAF"), Some (s2l "work"))) None;
+          mkinst (Some (s2l "u0")) None (Some (Some (s2l "LEAF"), Some (s2l "work"))) None].
+  exists [POut (Some (s2l "u0")) (Some (s2l "b")) 0; POut (Some (s2l "u1")) (Some (s2l "a")) 0].
+  exists [POut (Some (s2l "u0")) (Some (s2l "b")) 0; POut (Some (s2l "u1")) (Some (s2l "a")) 0].
+  split; [discriminate|]. split; vm_compute; reflexivity.
 Qed.
 
 (* ---------- concrete netlists ---------- *)
@@ -284,7 +355,7 @@ Lemma w_perm_ne : w_perm <> w_base. Proof. intro H; vm_compute in H; discriminat
 Lemma w_perm_ab : compare w_base w_perm = true. Proof. vmr. Qed.
 Lemma w_perm_ba : compare w_perm w_base = true. Proof. vmr. Qed.
 
-Lemma w_perm_equiv : nv_equiv_ord w_base w_perm.
+Lemma w_perm_equiv : nv_equiv w_base w_perm.
 Proof.
   apply compare_both_ways; [exact w_base_wf|apply w_perm_wf|exact w_base_noasg|apply w_perm_wf|].
   split; [exact w_perm_ab|exact w_perm_ba].
@@ -298,25 +369,19 @@ Proof.
   apply compare_sound_covered; [apply w_perm_wf|apply w_perm_wf|exact w_perm_ba].
 Qed.
 
-Lemma complete_ex : exists a b, a <> b /\ wf_named a /\ wf_named b /\ nv_equiv_ord a b.
-Proof.
-  exists w_base, w_perm. split; [intro H; symmetry in H; exact (w_perm_ne H)|].
-  split; [exact w_base_wf|]. split; [apply w_perm_wf|exact w_perm_equiv].
-Qed.
-
 (* two differences at once *)
 Lemma w_double_rejected : cmp_run w_base w_double = Reject. Proof. vmr. Qed.
 
-Lemma double_ex : exists a b, wf_named a /\ wf_named b /\ no_asg a /\ ~ nv_covered a b.
+Lemma double_ex : exists a b, wf_named a /\ wf_named b /\ no_asg a /\ ~ nv_covered_set a b.
 Proof.
   exists w_base, w_double. split; [exact w_base_wf|]. split; [vmr|]. split; [exact w_base_noasg|].
-  intro H. apply compare_complete_covered in H; [|exact w_base_wf|vmr].
+  intro H. apply compare_complete_covered_set in H; [|exact w_base_wf|vmr|exact w_base_noasg].
   vm_compute in H. discriminate H.
 Qed.
 
 (* the hole: properties that only the second netlist has *)
 Lemma extra_props_hole :
-  exists a b, wf_named a /\ wf_named b /\ no_asg a /\ no_asg b /\ compare a b = true /\ ~ nv_equiv_ord a b.
+  exists a b, wf_named a /\ wf_named b /\ no_asg a /\ no_asg b /\ compare a b = true /\ ~ nv_equiv a b.
 Proof.
   exists w_base, w_prop_new. repeat (split; [vmr|]).
   intro H. apply (compare_both_ways w_base w_prop_new) in H; try vmr.
@@ -325,14 +390,14 @@ Qed.
 
 (* the hole: assignment instances (no_asg is needed, even when comparing both ways) *)
 Lemma assignment_hole :
-  exists a b, wf_named a /\ wf_named b /\ compare a b = true /\ compare b a = true /\ ~ nv_covered a b.
+  exists a b, wf_named a /\ wf_named b /\ compare a b = true /\ compare b a = true /\ ~ nv_covered_set a b.
 Proof.
   exists w_asg, w_asg_ref. split; [exact w_asg_wf|]. split; [vmr|]. split; [exact w_asg_ref_accepted|].
   split; [vmr|].
   apply (nv_diff_not_covered MInstRef); [exact w_asg_wf|reflexivity|exact w_asg_ref_diff].
 Qed.
 
-(* pins as a set: the comparer zips the pins of a wire, so it is NOT complete for nv_equiv *)
+(* ---------- pins as a set: the same connectivity listed in another order is accepted ---------- *)
 Lemma props_sub_refl p : props_sub p p.
 Proof. split; [auto|]. intros x k v H. exists v. split; [assumption|apply pval_eqb_refl]. Qed.
 
@@ -351,41 +416,95 @@ Ltac rel_id :=
       | |- wire_perm _ _ => first [apply Permutation_refl | apply perm_swap]
       end ].
 
-Lemma w_pin_order_equiv : nv_equiv w_base w_pin_order.
-Proof.
-  unfold w_base, w_pin_order.
-  cbv [nv_equiv nv_rel lib_rel defn_rel cable_rel inst_rel port_rel top_rel
+Ltac unfold_rel :=
+  cbv [nv_equiv nv_equiv_ord nv_rel lib_rel defn_rel cable_rel inst_rel port_rel top_rel
        n_name n_oid n_top n_libs l_name l_oid l_defs d_name d_oid d_ports d_cables d_insts
        c_name c_oid c_wires i_name i_oid i_ref i_props p_name p_oid p_dir p_array p_width].
-  rel_id.
-Qed.
 
-Lemma w_pin_order_rejected : cmp_run w_base w_pin_order = Reject. Proof. vmr. Qed.
+Lemma w_pin_order_equiv : nv_equiv w_base w_pin_order.
+Proof. unfold w_base, w_pin_order. unfold_rel. rel_id. Qed.
 
-(* completeness with the pins of a wire taken as a set does not hold *)
-Definition complete_for_pin_sets : Prop :=
-  forall a b, wf_named a -> wf_named b -> nv_equiv a b -> compare a b = true.
+(* the witness of the former refutation: rejected by the positional comparison, accepted now *)
+Lemma w_pin_order_accepted : cmp_run w_base w_pin_order = Accept /\ cmp_run w_pin_order w_base = Accept.
+Proof. split; vmr. Qed.
 
-Lemma complete_for_pin_sets_refuted : ~ complete_for_pin_sets.
+(* ... although the two netlists do differ in the order of the pins of one wire *)
+Lemma w_pin_order_not_ord : ~ nv_equiv_ord w_base w_pin_order.
 Proof.
-  intro H. specialize (H w_base w_pin_order w_base_wf).
+  intros [_ [_ [_ H4]]].
   assert (Hb : wf_named w_pin_order) by vmr.
-  specialize (H Hb w_pin_order_equiv). vm_compute in H. discriminate H.
+  destruct (wf_named_libs _ Hb) as [Hnl Hwl].
+  pose (la := nth 0 (n_libs w_base) (mklib None None [])).
+  pose (lb := nth 0 (n_libs w_pin_order) (mklib None None [])).
+  assert (L : lib_rel props_eq eq la lb).
+  { eapply (sib_equiv_pair _ l_name); [exact H4|exact Hnl|intros u v [G _]; exact G| | |];
+      [left; reflexivity|left; reflexivity|reflexivity]. }
+  destruct L as [_ [_ L3]].
+  destruct (wf_lib_defs lb (Hwl lb (or_introl eq_refl))) as [Hnd Hwd].
+  pose (da := nth 2 (l_defs la) (mkdefn None None [] [] [])).
+  pose (db := nth 2 (l_defs lb) (mkdefn None None [] [] [])).
+  assert (D : defn_rel props_eq eq da db).
+  { eapply (sib_equiv_pair _ d_name); [exact L3|exact Hnd|intros u v [G _]; exact G| | |];
+      [right; right; left; reflexivity|right; right; left; reflexivity|reflexivity]. }
+  destruct D as [_ [_ [_ [D4 _]]]].
+  pose proof (wf_def_unpack db (Hwd db (or_intror (or_intror (or_introl eq_refl))))) as Hf.
+  pose (ca := nth 1 (d_cables da) (mkcable None None [])).
+  pose (cb := nth 1 (d_cables db) (mkcable None None [])).
+  assert (C : cable_rel eq ca cb).
+  { eapply (sib_equiv_pair _ c_name); [exact D4|exact (wd_nc db Hf)|intros u v [G _]; exact G| | |];
+      [right; left; reflexivity|right; left; reflexivity|reflexivity]. }
+  destruct C as [_ [_ C3]]. apply Forall2_eq in C3. vm_compute in C3. discriminate C3.
 Qed.
+
+(* completeness with the pins of a wire taken as a set *)
+Definition complete_for_pin_sets : Prop :=
+  forall a b, wf_named a -> wf_named b -> no_asg a -> nv_equiv a b -> compare a b = true.
+
+Lemma complete_for_pin_sets_holds : complete_for_pin_sets.
+Proof. exact compare_complete_set. Qed.
 
 Lemma pin_order_witness :
-  exists a b, wf_named a /\ wf_named b /\ no_asg a /\ no_asg b /\ nv_equiv a b /\ cmp_run a b = Reject.
+  exists a b, wf_named a /\ wf_named b /\ no_asg a /\ no_asg b /\ nv_equiv a b /\ ~ nv_equiv_ord a b /\
+              cmp_run a b = Accept /\ cmp_run b a = Accept.
 Proof.
-  exists w_base, w_pin_order. repeat (split; [vmr|]). split; [exact w_pin_order_equiv|vmr].
+  exists w_base, w_pin_order. repeat (split; [vmr|]). split; [exact w_pin_order_equiv|].
+  split; [exact w_pin_order_not_ord|]. exact w_pin_order_accepted.
+Qed.
+
+Lemma complete_ex : exists a b, a <> b /\ wf_named a /\ wf_named b /\ no_asg a /\ nv_equiv a b.
+Proof.
+  exists w_base, w_perm. split; [intro H; symmetry in H; exact (w_perm_ne H)|].
+  split; [exact w_base_wf|]. split; [apply w_perm_wf|]. split; [exact w_base_noasg|exact w_perm_equiv].
+Qed.
+
+(* the hypothesis no_asg of completeness for pin sets is needed: two instances named
+   SDN_Assignment_x_w and SDN_Assignment_y_w have the same key, each pin takes the first pin of
+   the other wire with its key, and the two instances may differ in their reference
+   (corpus/cmp/c20-asg-pin-order.json) *)
+Lemma w_asg3_equiv : nv_equiv w_asg3 w_asg3_swapped.
+Proof. unfold w_asg3, w_asg3_swapped. unfold_rel. rel_id. Qed.
+
+Lemma pin_sets_need_no_asg :
+  exists a b, wf_named a /\ wf_named b /\ nv_equiv a b /\ compare a a = true /\ cmp_run a b = Reject.
+Proof.
+  exists w_asg3, w_asg3_swapped. split; [vmr|]. split; [vmr|]. split; [exact w_asg3_equiv|]. split; vmr.
 Qed.
 
 (* the lower index of a port is not compared (and not part of the equivalence) *)
+Lemma w_lower_equiv : nv_equiv_ord w_base w_lower.
+Proof. unfold w_base, w_lower. unfold_rel. rel_id. Qed.
+
 Lemma lower_index_witness :
   exists a b, a <> b /\ wf_named a /\ wf_named b /\ nv_equiv_ord a b /\ compare a b = true.
 Proof.
   exists w_base, w_lower. split; [intro H; vm_compute in H; discriminate H|].
-  split; [vmr|]. split; [vmr|]. split; [|vmr].
-  apply compare_both_ways; try vmr. split; vmr.
+  split; [vmr|]. split; [vmr|]. split; [exact w_lower_equiv|vmr].
+Qed.
+
+Lemma complete_ord_ex : exists a b, a <> b /\ wf_named a /\ wf_named b /\ nv_equiv_ord a b.
+Proof.
+  exists w_base, w_lower. split; [intro H; vm_compute in H; discriminate H|].
+  split; [vmr|]. split; [vmr|exact w_lower_equiv].
 Qed.
 
 (* hypotheses of not_equiv_rejected are satisfiable: two differences, no property touched *)
@@ -408,11 +527,11 @@ Proof.
 Qed.
 
 Lemma structural_difference_ex :
-  exists a b, wf_named a /\ no_asg a /\ no_extra_props a b /\ ~ nv_equiv_ord a b.
+  exists a b, wf_named a /\ no_asg a /\ no_extra_props a b /\ ~ nv_equiv a b.
 Proof.
   exists w_base, w_double. split; [exact w_base_wf|]. split; [exact w_base_noasg|].
   split; [exact double_no_extra|].
-  intro H. apply compare_complete in H; [|exact w_base_wf|vm_compute; reflexivity].
+  intro H. apply compare_complete_set in H; [|exact w_base_wf|vm_compute; reflexivity|exact w_base_noasg].
   vm_compute in H. discriminate H.
 Qed.
 
